@@ -75,6 +75,12 @@ impl<T, E> Observer<T, E> for ObservableStreamObserver<T, E> {
       .sender
       .unbounded_send(Message::Item(Err(err)))
       .expect("failed to send error to stream");
+    // the error is the last element: end the stream after it instead of
+    // leaving the consumer pending forever.
+    self
+      .sender
+      .unbounded_send(Message::Complete)
+      .expect("failed to send a complete message");
   }
 
   fn complete(self) {
